@@ -36,3 +36,9 @@ claim("C22", "exploration",
       "Generated models with delay() calls whose durations depend on each variable category (singly and mixed, inside and outside for-loops, with and without expand_vectors) are compiled through the real transfer_model; acceptance must match the generator's knowledge of the duration's dependencies and for accepted models the (expression, duration) pairs returned by delay_arguments_function must equal the reference values.",
       "durations contain no cancelling terms; pairs are compared as a multiset; any exception counts as rejection (types recorded in the evidence)",
       "DESIGN.md section 4, C22")
+
+claim("C17", "exploration",
+      "shadow signed union-find beside the real object + icontract postconditions, breadth-first over operation histories up to state fix-point, plus long random histories",
+      "Every reachable observable state of the real AliasRelation over 4 names x 2 signs is visited (breadth-first, the state fix-point is reached and reported) and every operation is applied in every state; after each operation aliases(), canonical_signed(), canonical_variables and iteration are compared with a shadow signed union-find, copies are checked for independence in both directions, and icontract postconditions on add/remove/copy check symmetry and the negation mirror. Random histories of length 60 over 8 names extend beyond the bound.",
+      "exhaustive only inside the 4-name universe (fix-point of observable fingerprints); histories relating a variable to its own negation are excluded by the property's precondition",
+      "DESIGN.md section 4, C17")
